@@ -110,7 +110,7 @@ func (rp *runnablePacker[I, O, TOption]) toComposableRunnable() *composableRunna
 	}
 
 	i := func(ctx context.Context, input any, opts ...any) (output any, err error) {
-		in, ok := input.(I)
+		in, ok := assertType[I](input)
 		if !ok {
 			panic(newUnexpectedInputTypeErr(inputType, reflect.TypeOf(input)))
 		}
